@@ -482,6 +482,7 @@ func TestC12_SM2KeyGen(t *testing.T) {
 }
 func TestC12_SM2KeyExchange(t *testing.T) {
 	runFamily(t, "sm2kex", 1000, 15000, "sm2-kex-init", "sm2-kex-respond")
+	runProtocol(t, "sm2", 100, 4000)
 }
 func TestC12_SM2Legacy(t *testing.T) {
 	runFamily(t, "p256legacy", 500, 10000, "p256-legacy-sign", "p256-legacy-encrypt")
